@@ -24,7 +24,7 @@ from sim.core import Ctx, stream
 from sim.seam import OutcomeScript, OwnedRNG
 
 ID = "C04"
-RUNS = {"quick": 1600, "thorough": 40000}
+RUNS = {"quick": 2400, "thorough": 60000}
 BUDGET = {"quick": 75, "thorough": 1500}
 CHUNK = {"quick": 20, "thorough": 100}
 MOVES = ["add_emitter_one_qubit_op", "add_emitter_cnot", "replace_photon_one_qubit_op", "add_photon_one_qubit_op",
